@@ -10,7 +10,7 @@ import ast
 
 from ..core.tree import AnalysisError
 from ..core.constfold import Folder
-from ..core.astutil import walk_no_nested, call_name, short
+from ..core.astutil import walk_no_nested, call_name, short, src
 from ..engines.tables import HEX2, HEX4, parity_ok, require_dict
 from ..spec import cea608
 
@@ -156,6 +156,7 @@ EXPECTED_DISPATCH = {
 def dispatch_rule(ctx, report):
     fn = ctx.index.get_function("pycaption/scc/__init__.py", "SCCReader._translate_command")
     report.covered(fn)
+    folder = ctx.memo("folder", lambda: Folder(ctx.index))
     wordname = fn.params[1] if len(fn.params) > 1 else "word"
     chain = None
     for st in fn.node.body:
@@ -206,7 +207,41 @@ def dispatch_rule(ctx, report):
                             and st.targets[0].attr == "roll_rows_expected" \
                             and isinstance(st.value, ast.Constant):
                         depth[code_of.get(lits[0], lits[0])] = st.value.value
+    # table form: roll_rows_expected = TABLE[word] / TABLE.get(word) under the roll-up branch
+    for n in walk_no_nested(fn.node):
+        if isinstance(n, ast.Assign) and len(n.targets) == 1 and isinstance(n.targets[0], ast.Attribute) \
+                and n.targets[0].attr == "roll_rows_expected" and not isinstance(n.value, ast.Constant):
+            v = n.value
+            tbl = None
+            if isinstance(v, ast.Subscript) and src(v.slice) == wordname:
+                tbl = v.value
+            elif isinstance(v, ast.Call) and isinstance(v.func, ast.Attribute) and v.func.attr == "get" \
+                    and v.args and src(v.args[0]) == wordname:
+                tbl = v.func.value
+            if tbl is None:
+                raise AnalysisError(f"_translate_command: roll-up depth assignment not recognised: {short(n)}")
+            try:
+                table = folder.eval_in(fn.module, tbl)
+            except AnalysisError as e:
+                raise AnalysisError(f"_translate_command: roll-up depth table not foldable: {e}")
+            if not isinstance(table, dict):
+                raise AnalysisError("_translate_command: roll-up depth table is not a mapping")
+            # only the codes that can reach the assignment count
+            guards = None
+            for m_ in walk_no_nested(fn.node):
+                if isinstance(m_, ast.If) and any(x is n for st in m_.body for x in walk_no_nested(st)):
+                    ls = _literals_tested(m_.test, wordname)
+                    if ls:
+                        guards = set(ls)
+            for k_, v_ in table.items():
+                if guards is None or k_ in guards:
+                    depth[code_of.get(k_, k_)] = v_
+            missing = (guards or set()) - set(table)
+            for k_ in missing:
+                depth[code_of.get(k_, k_)] = "KeyError"
     want_depth = {"RU2": 2, "RU3": 3, "RU4": 4}
+    if not depth:
+        raise AnalysisError("_translate_command: no assignment of the roll-up depth found")
     got = {k: v for k, v in depth.items() if k in want_depth}
     report.check(got == want_depth, "R-DISPATCH", fn, "roll-up depth per RU2/RU3/RU4",
                  {"found": depth, "required": want_depth}, "5")
